@@ -64,6 +64,23 @@ func (tr *Tr) evalCall(env *CEnv, x *CCall) (Value, types.Type) {
 				return LocV{L: l, Typ: et}, et
 			}
 			return tr.loadAt(env.st, l, et), et
+		case "sumarr":
+			av, _ := tr.evalC(env, x.Args[0])
+			a, ok := av.(Ar)
+			if !ok {
+				panic(subsetErr("sumarr(a, o, k): a must be an arr"))
+			}
+			tr.sumSizeDecl()
+			return Sc{T: "(|sumsz| " + a.T + " " + tr.evalInt(env, x.Args[1]) + " " + tr.evalInt(env, x.Args[2]) + ")"}, nil
+		case "arrof":
+			v, t := tr.evalC(env, x.Args[0])
+			sl := tr.asSl(tr.rval(env, v, t))
+			et := t.Underlying().(*types.Slice).Elem()
+			if kindOf(et) != kInt {
+				panic(subsetErr("arrof() on a slice of non-scalar elements"))
+			}
+			h := tr.heapVar(env.st, elemPrefix(et), arr2(sortInt))
+			return Ar{T: sSel(h, sl.Arr)}, arrType
 		case "sumsize":
 			v, t := tr.evalC(env, x.Args[0])
 			sl := tr.asSl(tr.rval(env, v, t))
@@ -93,6 +110,18 @@ func (tr *Tr) evalCall(env *CEnv, x *CCall) (Value, types.Type) {
 			k := tr.evalInt(env, x.Args[0])
 			it := env.st.vars[e.counter].(Sc).T
 			return boolV(sAnd(sSel(e.dom, k), sLt("("+e.rank+" "+k+")", it))), bt
+		case "entry":
+			// entry(x): the value of parameter x at function entry (parameters are mutable in Go; SSA parameters are not)
+			pid, ok := x.Args[0].(*CIdent)
+			if !ok || env.fr == nil {
+				panic(subsetErr("entry(x) needs a parameter name inside a loop invariant"))
+			}
+			for _, p := range env.fr.fn.Params {
+				if p.Name() == pid.Name {
+					return tr.val(env.fr, p), p.Type()
+				}
+			}
+			panic(subsetErr("entry(): no parameter " + pid.Name))
 		case "fresh":
 			v, t := tr.evalC(env, x.Args[0])
 			r := tr.refOf(env, v, t)
@@ -296,6 +325,12 @@ func (tr *Tr) evalSpec(env *CEnv, sd *SpecDef, argEs []CExpr) (Value, types.Type
 		for i, a := range argEs {
 			pt := tr.resolveCType(penv, sd.Params[i].Typ)
 			v, t := tr.evalC(env, a)
+			if kindOf(pt) == kIface {
+				iv := tr.asIf(tr.rval(env, v, t))
+				ts = append(ts, iv.Tag, iv.Val)
+				sig += "Int Int "
+				continue
+			}
 			s := tr.asSc(tr.rval(env, v, t), pt)
 			ts = append(ts, s.T)
 			if kindOf(pt) == kBool {
@@ -342,7 +377,7 @@ func (tr *Tr) evalSpec(env *CEnv, sd *SpecDef, argEs []CExpr) (Value, types.Type
 		}
 		// compound scalar arguments are passed as placeholders and substituted back afterwards, so that counting
 		// predicates inside the spec body get a canonical shape (see cntSym)
-		if sc, ok := v.(Sc); ok && strings.HasPrefix(sc.T, "(") {
+		if sc, ok := v.(Sc); ok && (strings.HasPrefix(sc.T, "(") || (sd.Opaque && isLiteral(sc.T))) {
 			tr.fresh++
 			ph := smtName(fmt.Sprintf("%s?%d", sd.Params[i].Name, tr.fresh))
 			subst = append(subst, [2]string{ph, sc.T})
@@ -351,6 +386,9 @@ func (tr *Tr) evalSpec(env *CEnv, sd *SpecDef, argEs []CExpr) (Value, types.Type
 		penv.vars[sd.Params[i].Name] = EV{V: v, T: t}
 	}
 	v, t := tr.evalC(penv, sd.Body)
+	if sd.Opaque {
+		v = tr.opaqueAtom(sd, v)
+	}
 	for k := len(subst) - 1; k >= 0; k-- {
 		v = substValue(v, subst[k][0], subst[k][1])
 	}
@@ -568,3 +606,86 @@ func substValue(v Value, from, to string) Value {
 	}
 	return v
 }
+
+// opaqueAtom hides the definition of an opaque spec function behind an uninterpreted function applied to everything the
+// definition depends on: heap versions and scalar symbols (fixed dependencies) and quantifier-bound variables / argument
+// placeholders (parameters). Functions that list the spec in a "reveal" clause get the defining equation as a fact,
+// quantified over the parameters with the application as trigger; all others can only pass applications along (an
+// application is preserved exactly when none of its dependencies changes). Because the quantified variable is a plain
+// argument of the application, quantified contracts over logical indexes get a trigger that needs no arithmetic.
+func (tr *Tr) opaqueAtom(sd *SpecDef, v Value) Value {
+	sc, ok := v.(Sc)
+	if !ok {
+		panic(subsetErr("opaque spec must be scalar-valued: " + sd.Name))
+	}
+	f := sc.T
+	seen := map[string]bool{}
+	var args, sorts, params []string
+	for _, m := range quotedSymRe.FindAllString(f, -1) {
+		if seen[m] || m == cntBound {
+			continue
+		}
+		seen[m] = true
+		if strings.Contains(m, "?") {
+			if strings.Contains(f, "("+m+" Int)") || strings.Contains(f, "("+m+" Bool)") || strings.Contains(f, "("+m+" (Array") {
+				continue // bound inside the definition itself
+			}
+			args = append(args, m)
+			sorts = append(sorts, "Int")
+			params = append(params, m)
+			continue
+		}
+		sig, declared := tr.sc.sigs[m]
+		if !declared || !strings.HasPrefix(sig, "() ") {
+			continue // function symbols stay part of the shape
+		}
+		args = append(args, m)
+		sorts = append(sorts, strings.TrimPrefix(sig, "() "))
+	}
+	shape := f
+	for i, a := range args {
+		shape = strings.ReplaceAll(shape, a, fmt.Sprintf("|dep#%d|", i))
+	}
+	// local quantifier ids and binder names carry fresh numbers: normalise them
+	shape = qidRe.ReplaceAllString(shape, ":qid Q_")
+	shape = binderNumRe.ReplaceAllString(shape, "?|")
+	rs := "Int"
+	if sc.Bool {
+		rs = "Bool"
+	}
+	key := "opaque|" + sd.Name + "|" + strings.Join(sorts, ",") + "|" + rs + "|" + shape
+	fn, ok := tr.cntSyms[key]
+	if !ok {
+		tr.fresh++
+		fn = smtName(fmt.Sprintf("OP$%s!%d", sd.Name, tr.fresh))
+		tr.sc.declare(fn, "("+strings.Join(sorts, " ")+") "+rs)
+		tr.cntSyms[key] = fn
+	}
+	atom := fn
+	if len(args) > 0 {
+		atom = "(" + fn + " " + strings.Join(args, " ") + ")"
+	}
+	if tr.revealed[sd.Name] {
+		generic := atom
+		for i, p := range params {
+			generic = strings.ReplaceAll(generic, p, fmt.Sprintf("|par#%d|", i))
+		}
+		rk := "reveal|" + generic
+		if !tr.typeFactDone[rk] {
+			tr.typeFactDone[rk] = true
+			if len(params) == 0 {
+				tr.sc.fact(sEq(atom, f))
+			} else {
+				var bs []string
+				for _, p := range params {
+					bs = append(bs, "("+p+" Int)")
+				}
+				tr.sc.fact(fmt.Sprintf("(forall (%s) (! (= %s %s) :pattern (%s)))", strings.Join(bs, " "), atom, f, atom))
+			}
+		}
+	}
+	return Sc{T: atom, Bool: sc.Bool}
+}
+
+var qidRe = regexp.MustCompile(`:qid Q[0-9]+_`)
+var binderNumRe = regexp.MustCompile(`\?[0-9]+\|`)
